@@ -264,7 +264,7 @@ def gen_doc(rnd, depth=0):
             elif r < 0.82:
                 out.append("`" + w + "`")
             elif r < 0.87:
-                out.append("![" + rnd.choice([w, "a `c` b", "e\\*s", "x &amp; y", "*em* t", "o ![i **s**](y.png) t", "![*e* `c`](z.png)", "[l *k*](https://e.x/q)"]) + "](i.png)")
+                out.append("![" + rnd.choice([w, "a `c` b", "e\\*s", "x &amp; y", "*em* t", "o ![i **s**](y.png) t", "![*e* `c`](z.png)", "[l *k*](https://e.x/q)"]) + "](" + rnd.choice(["i.png", "./a/i.png", "b//c.png?x=1", "d/../i.png", "dir/"]) + ")")
             elif r < 0.92:
                 out.append("~~" + w + "~~")
             elif r < 0.96:
@@ -322,6 +322,9 @@ def _vjob(job):
     if c03only and front not in ("c03", "c03raw", "c03sup"):
         return {"id": tid, "skip": why}
     ov = {"myst_commonmark_only": True} if cm else {"myst_enable_extensions": cfg["enable_extensions"], "myst_heading_anchors": 3 if front in ("c03", "c03raw", "c03sup") else 0}
+    if front in ("c03", "c03raw", "c03sup") and not cm:
+        ov["myst_enable_extensions"] = ov["myst_enable_extensions"] + ["substitution"]
+        ov["myst_substitutions"] = {"prod": "[Widget]{#widget}[^f1]", "blk": "(tgs)=\n## Sub in substitution"}
     if front == "c03raw":
         # docutils' raw_enabled=False: every raw node is replaced by a warning node after the parse
         ov["raw_enabled"] = False
